@@ -292,3 +292,78 @@ func verifH_ServeStream() {
 	verifAssert(sctx.Err() != nil, "C04+C14.handler-context-cancelled-at-the-end")
 	verifAssert(verifLiveGoroutines() == 0, "C14.serve-stream-no-goroutine-left")
 }
+
+// S-SRV-BLOCKED (C03 C04 C06 C07 C09 C14): a handler blocked in SendMsg on a
+// zero window, or in RecvMsg on an empty queue, while the receive loop
+// processes a cancel frame / a window overrun / an unknown frame for that
+// stream, or the tunnel goes away. The loop must get through (it only waits
+// for locks that the cancellation releases), the blocked call must return an
+// error, and the stream must be gone afterwards.
+func verifH_SrvBlocked() {
+	car := &vSrvCarrier{ctx: context.Background(), endErr: io.EOF}
+	svr := &tunnelServer{stream: car, streams: map[int64]*tunnelServerStream{}, lastSeen: 9, tunnelOpts: &tunnelOpts{}}
+	root, rootCancel := context.WithCancel(context.Background())
+	ctx, cancel := context.WithCancel(root)
+	st := &tunnelServerStream{ctx: ctx, cancel: cancel, svr: svr, streamID: 9, method: "a/s", stream: car,
+		isClientStream: true, isServerStream: true}
+	st.sender = newSender(ctx, 0, func(data []byte, totalSize uint32, first bool) error {
+		return car.Send(&tunnelpb.ServerToClient{StreamId: 9, Frame: &tunnelpb.ServerToClient_MoreResponseData{MoreResponseData: data}})
+	})
+	st.receiver = newReceiver[tunnelpb.ClientToServerFrame](func(f tunnelpb.ClientToServerFrame) uint {
+		if m, ok := f.(*tunnelpb.ClientToServer_RequestMessage); ok {
+			return uint(len(m.RequestMessage.Data))
+		}
+		return 0
+	}, func(uint32) {}, 4)
+	svr.streams[9] = st
+	phase := verifChoice("phase", 2)
+	var herr error
+	returned := false
+	desc := &grpc.StreamDesc{StreamName: "s", ClientStreams: true, ServerStreams: true, Handler: func(srv any, ss grpc.ServerStream) error {
+		if phase == 0 {
+			herr = ss.SendMsg(&wrapperspb.BytesValue{Value: []byte{1, 2, 3}})
+		} else {
+			herr = ss.RecvMsg(&wrapperspb.BytesValue{})
+		}
+		returned = true
+		return herr
+	}}
+	verifGo("handler", func() { st.serveStream(desc, &vSvcImpl{"a"}) })
+	verifDrain()
+	verifAssert(!returned, "C05.handler-is-blocked-without-credit-or-data")
+	verifCover("handler-blocked")
+	event := verifChoice("event", 4)
+	switch event {
+	case 0:
+		st.acceptClientFrame(&tunnelpb.ClientToServer_Cancel{})
+	case 1: // five bytes into a window of four
+		st.acceptClientFrame(&tunnelpb.ClientToServer_RequestMessage{RequestMessage: &tunnelpb.MessageData{Size: 100, Data: []byte{1, 2, 3, 4, 5}}})
+	case 2:
+		st.acceptClientFrame(nil)
+	case 3:
+		rootCancel() // the tunnel is torn down / the deadline fires
+	}
+	// reaching this point at all: the receive loop was not wedged (a wedge is reported as DEADLOCK)
+	verifDrain()
+	verifAssert(returned && herr != nil, "C04+C06+C07.blocked-handler-call-returns-an-error")
+	_, still := svr.streams[9]
+	verifAssert(!still, "C14.blocked-stream-leaves-table")
+	nclose := 0
+	for _, f := range car.sent {
+		if cs, ok := f.Frame.(*tunnelpb.ServerToClient_CloseStream); ok {
+			nclose++
+			if event == 1 && phase == 1 {
+				verifAssert(codes.Code(cs.CloseStream.Status.GetCode()) == codes.ResourceExhausted, "C06+C09.overrun-fails-that-rpc-with-resource-exhausted")
+			}
+			if event == 1 {
+				// (with the handler inside SendMsg its own context error may win the race for the close frame: observation O8)
+				verifAssert(codes.Code(cs.CloseStream.Status.GetCode()) != codes.OK, "C06+C09.overrun-fails-that-rpc")
+			}
+		}
+	}
+	verifAssert(nclose == 1, "C13.blocked-stream-gets-exactly-one-close-frame")
+	for _, th := range car.sentBy {
+		verifAssert(th != 0, "C03.no-carrier-send-on-the-loop-stack-blocked")
+	}
+	verifAssert(verifLiveGoroutines() == 0, "C14.blocked-stream-no-goroutine-left")
+}
